@@ -80,6 +80,7 @@ class CallMixin:
                 raise Unsupported("comprehension consuming an iterator")
             kv = z3.Int(fresh_name("k"))
             sub = st1.fork()
+            sub.assume(z3.And(0 <= kv, kv < cnt))
             results = []
             x = el(sub, kv)
             inner = ctx.with_(exc=lambda s, ex: (_ for _ in ()).throw(Unsupported("comprehension element may raise (line %d)" % e.lineno)))
@@ -317,6 +318,13 @@ class CallMixin:
         line = getattr(node, "lineno", None)
         ci = self.select_case(c, bound)
         if ci is None:
+            # narrow a reference of several possible classes and retry (infeasible classes are pruned by the path condition)
+            for n, v in bound.items():
+                if isinstance(v, VObj) and len(v.classes) > 1:
+                    return self.for_classes(st, v, lambda s, cls, n=n, v=v: self.apply_contract(
+                        s, ctx, c, {**bound, n: VObj((cls,), v.t)}, k, node))
+                if isinstance(v, VOpt) and n in c.cases[0] and c.cases[0][n].k != "opt":
+                    return self.unwrap(st, ctx, v, node, lambda s, x, n=n: self.apply_contract(s, ctx, c, {**bound, n: x}, k, node))
             raise Unsupported("no contract case of %s fits the arguments %r (line %s)" % (
                 c.qual, {n: ty_of_safe(v) for n, v in bound.items()}, line))
         case = c.cases[ci]
@@ -400,7 +408,10 @@ class CallMixin:
             else:
                 keys = []
                 for cl in o.classes:
-                    keys += field_keys(cl, node.attr)
+                    if field_decl(cl, node.attr)[1] is not None:
+                        keys += field_keys(cl, node.attr)
+                if not keys:
+                    raise StaleContract("modifies clause %r names no declared field" % s)
                 out.append(("field", o.t, keys))
         return out
 
